@@ -625,6 +625,14 @@ func main() {
 		fmt.Fprintln(os.Stderr, "init:", err)
 		os.Exit(2)
 	}
+	if len(args) > 0 && args[0] == "fn" { // function-level tie (fn.go)
+		n := 600
+		if len(args) > 1 {
+			n, _ = strconv.Atoi(args[1])
+		}
+		runFn(n)
+		return
+	}
 	enc := json.NewEncoder(os.Stdout)
 	if len(args) > 1 { // replay: a file holding one History (its ops are re-run)
 		b, err := os.ReadFile(args[1])
